@@ -685,6 +685,25 @@ func c13MakeCmd(g *Gen) (string, []byte) {
 // the same write batch), preceded by whatever row the family needs and followed by a few
 // random mutations of the same key.
 func c13Scenario(g *Gen, family int) (string, [][]byte) {
+	if family == 7 || family == 8 {
+		// the hash-slot fence inside a batch: an ordinary write, EnterFence, ordinary writes of the SAME
+		// hash slot (family 8: with a CleanupMigrationOutbox that lifts the fence again in between)
+		write := func() []byte {
+			u := c13Rand[metadb.User](g)
+			u.UID = []string{"u1", "u2"}[g.R.Intn(2)]
+			return fsm.EncodeUpsertUserCommand(u)
+		}
+		fence := fsm.EncodeEnterFenceCommandForTarget(1, 7)
+		if family == 7 {
+			out := [][]byte{write(), fence, write()}
+			if g.R.Bool() {
+				out = append(out, write())
+			}
+			return "fence-then-write", out
+		}
+		cleanup := fsm.EncodeCleanupHashSlotMigrationOutboxCommand(1, 1, 7, 1000)
+		return "fence-cleanup-write", [][]byte{write(), fence, write(), cleanup, write()}
+	}
 	ch := []string{"g1", "c2"}[g.R.Intn(2)]
 	var out [][]byte
 	var name string
@@ -964,16 +983,24 @@ func genC13(g *Gen) {
 	for c := 0; c < g.N; c++ {
 		g.Case()
 		if c == 0 {
+			// first case of every run: write, EnterFence, write on one hash slot under ALL partitions
+			g.Count("log:fence-scenario")
+			genC13Scenario(g, 7)
+			continue
+		}
+		if c == 1 {
 			g.Count("log:field-length-sweep")
 			genC13Sweep(g)
 			continue
 		}
-		if c <= 7 || g.R.Chance(15) {
-			// cases 1..7 of every shard: one add / remove / re-add scenario per set-like table, ALL partitions
+		if c <= 9 || g.R.Chance(15) {
+			// cases 2..9 of every shard: fence+cleanup, then one add / remove / re-add scenario per set-like table, ALL partitions
 			g.Count("log:set-table-scenario")
-			family := c - 1
-			if c > 7 {
-				family = g.R.Intn(7)
+			family := c - 3
+			if c == 2 {
+				family = 8
+			} else if c > 9 {
+				family = g.R.Intn(9)
 			}
 			genC13Scenario(g, family)
 			continue
